@@ -85,9 +85,10 @@ theorem C06_move_per_axis_not_quantized (m : MoveOp) (q : QB) (hq : q.axis ≠ n
 
 theorem C06_t_wf (q r : QB) (hq : q.wf = true) (h : qbT q = .qb r) :
     r.wf = true ∧ r.axis = q.axis.map (!·) ∧ r.size = q.size.reverse ∧
-      q.data.transpose? 0 1 = some r.data ∧ r.F = q.F ∧ r.Q = q.Q := by
-  obtain ⟨h1, h2, h3, h4, h5, h6⟩ := t_wf hq h
-  exact ⟨h1, h4, h5, h6, h2, h3⟩
+      (q.size.length = 2 → q.data.transpose? 0 1 = some r.data) ∧ (q.size.length < 2 → r = q) ∧
+      r.F = q.F ∧ r.Q = q.Q := by
+  obtain ⟨h1, h2, h3, h4, h5, h6, h7⟩ := t_wf hq h
+  exact ⟨h1, h4, h5, h6, h7, h2, h3⟩
 
 /-! ### T4 — elementwise ops, copies, dtype moves -/
 
